@@ -167,6 +167,51 @@ func c7reweight(id int, letter string, counts []int) (codon.Table, bool) {
 	return t.OptimizeTable(seqForCounts(cnt)), true
 }
 
+// c7menu: calls of the other exported functions with arguments unlike the defaults, and an Optimize observation that
+// shows the threshold (the set of results over all answers on a table with a rare codon).
+func c7menu() []hcall {
+	tv := func(t codon.Table) string {
+		v := viewOf(t)
+		return v.weights() + v.letters() + fmt.Sprint(t.StartCodons, t.StopCodons)
+	}
+	all := strings.Join(allCodons, "")
+	mk := func(id int, s string) codon.Table { return deepCopyTable(codon.GetCodonTable(id)).OptimizeTable(s) }
+	comp := func(cut float64) hcall {
+		return hcall{fmt.Sprintf("CompromiseCodonTable(copies,%g)", cut), func() any {
+			t, err := codon.CompromiseCodonTable(mk(11, all+"ATGATGGGG"), mk(1, all+"CCCTTT"), cut)
+			if err != nil {
+				return codon.Table{}
+			}
+			return t
+		}, func(v any) string { return tv(v.(codon.Table)) }}
+	}
+	return []hcall{comp(0), comp(0.03), comp(0.5), comp(1), comp(-1), comp(2),
+		{"Optimize(FI, F=[1 20] I=[2 9 9]) over all answers", func() any {
+			t, _ := c7reweight(1, "F", []int{1, 20})
+			v := viewOf(t)
+			cnt := map[string]int{}
+			for _, c := range allCodons {
+				cnt[c] = v.w[c]
+			}
+			for i, c := range v.synonyms()["I"] {
+				cnt[c] = []int{2, 9, 9}[i]
+			}
+			t = t.OptimizeTable(seqForCounts(cnt))
+			res, _ := c7all("FI", t, 100000)
+			set := map[string]bool{}
+			for _, x := range res {
+				set[fmt.Sprint(x.dna, x.err, x.panic)] = true
+			}
+			var ks []string
+			for k := range set {
+				ks = append(ks, k)
+			}
+			sort.Strings(ks)
+			return strings.Join(ks, " ")
+		}, showSprint},
+	}
+}
+
 func c07units(tier string) []mc.Unit {
 	var us []mc.Unit
 	thorough := tier == "thorough"
@@ -377,7 +422,40 @@ func c07units(tier string) []mc.Unit {
 			r.Bound("reweight-in-place", "sequences optimise; OptimizeTable(in place); optimise on one table value, all pairs of F count vectors over the value set")
 		}})
 	}
-	us = append(us, historyUnit("api-histories", codonMenu(), 2))
+	// (ii-c) weights at the boundary of the 10% threshold: for every total T, the counts just below, at and just above
+	// T/10 for one codon of a two-codon amino acid (shares such as 11/109 = 10.09% are eligible, 10/100 is not)
+	maxT := tier2(tier, 260, 700)
+	for part := 0; part < 8; part++ {
+		part := part
+		us = append(us, mc.Unit{Name: fmt.Sprintf("threshold-boundary/part=%d", part), Serial: true, Weight: maxT / 2, Run: func(r *mc.Recorder) {
+			var n, cases int64
+			for T := 2 + part; T <= maxT; T += 8 {
+				for d := -1; d <= 2; d++ {
+					w := T/10 + d
+					if w < 0 || w > T {
+						continue
+					}
+					for _, swap := range []bool{false, true} {
+						counts := []int{w, T - w}
+						if swap {
+							counts = []int{T - w, w}
+						}
+						t, ok := c7reweight(1, "F", counts)
+						if !ok {
+							panic("synonym count mismatch for F")
+						}
+						n += c7judge(r, fmt.Sprintf("table 1 with F counts %v, protein \"F\"", counts), "F", t, true, true)
+						cases++
+					}
+				}
+			}
+			r.Eval(n)
+			r.AddStates(cases)
+			r.AddNontrivial(n)
+			r.Bound("threshold-boundary", fmt.Sprintf("every total 2..%d x the four counts around a tenth of it x both codons of F, all answers of the draw", maxT))
+		}})
+	}
+	us = append(us, historyUnit("api-histories", append(codonMenu(), c7menu()...), 2))
 	// (v) every output of the random protein generator at small lengths
 	maxGen := tier2(tier, 4, 5)
 	us = append(us, mc.Unit{Name: "generator", Serial: true, Weight: 400, Run: func(r *mc.Recorder) {
